@@ -1,5 +1,5 @@
 (* Decoding of harness cases for the semver model (kinds match harness/go/cmd/implrun/semver.go). *)
-From DepsDev Require Import Lib.Base Lib.Sx Semver.Version Semver.Maven Semver.Gem Semver.Pep440 Semver.Compare.
+From DepsDev Require Import Lib.Base Lib.Sx Semver.Version Semver.Maven Semver.Gem Semver.Pep440 Semver.Compare Semver.Parse.
 Local Open Scope Z_scope.
 
 Fixpoint decode_zs (l : list sx) : option (list Z) :=
@@ -60,6 +60,25 @@ Definition decode_version (d : sx) : option version :=
 
 Definition sx_zres (r : res Z) : sx := sx_res SI r.
 
+(* the shape printed by semver.VerifDump *)
+Definition sx_ext (e : extension) : sx :=
+  match e with
+  | NoExt => SL [SI 0]
+  | MavenExt l => SL (SI 1 :: map (fun x => SL [SI (Z.of_N (me_sep x)); SB (me_str x); SI (me_int x)]) l)
+  | Pep440Ext None => SL [SI 2]
+  | Pep440Ext (Some x) =>
+      SL [SI 2; SL [SI (p_epoch x); SB (p_pre x); SI (p_prenum x); sx_bool (p_post x); SI (p_postnum x);
+                    sx_bool (p_dev x); SI (p_devnum x); SB (p_local x)]]
+  | GemExt l => SL (SI 3 :: map (fun x => SL [SB (ge_str x); SI (ge_int x)]) l)
+  end.
+
+Definition sx_version (v : version) : sx :=
+  SL [SI (sys_index (v_sys v)); SI (v_user_num_count v); sx_bool (v_is_prerelease v); SB (v_str v);
+      SL (map SI (v_num v)); SL (map SB (v_pre v)); SB (v_build v); sx_ext (v_ext v)].
+
+Definition is_family (s : system) : bool :=
+  match s with SDefault | SCargo | SGo | SNPM | SNuGet | SComposer => true | _ => false end.
+
 Definition run_Semver (kind : bytes) (a : sx) : option sx :=
   if bytes_eqb kind [115;118;109;95;99;109;112]%N (* svm_cmp *) then
     Some (match a with
@@ -74,6 +93,22 @@ Definition run_Semver (kind : bytes) (a : sx) : option sx :=
           | SL [d; SI sb] =>
               match decode_version d with
               | Some v => SB (canon (negb (sb =? 0)) v)
+              | None => badcase
+              end
+          | _ => badcase end)
+  else if bytes_eqb kind [115;118;109;95;112;97;114;115;101]%N (* svm_parse *) then
+    Some (match a with
+          | SL [SI sys; SB str] =>
+              match sys_of_index sys with
+              | Some s => if is_family s then sx_res sx_version (parse s str) else SB sym_oom
+              | None => badcase
+              end
+          | _ => badcase end)
+  else if bytes_eqb kind [115;118;109;95;112;97;114;115;101;105]%N (* svm_parsei: internal parse, infinity allowed *) then
+    Some (match a with
+          | SL [SI sys; SB str] =>
+              match sys_of_index sys with
+              | Some s => if is_family s then sx_res sx_version (parse_internal s true str) else SB sym_oom
               | None => badcase
               end
           | _ => badcase end)
